@@ -142,6 +142,13 @@ def run(ctx):
                           {"op": "park", "point": "h.fail.post"}, {"op": "end", "p": "f", "how": how_f}, {"op": "wait_park", "point": "h.fail.post"}, {"op": "end", "p": "g", "how": how_g}]
                 script += ([{"op": "sleep", "ms": 5}, {"op": "release", "point": "h.fail.post"}, {"op": "wait_end", "timeout": 4.0}] if order == "held-then-other" else [{"op": "wait_end", "timeout": 4.0}, {"op": "release", "point": "h.fail.post"}, {"op": "sleep", "ms": 50}])
                 extra.append({"seed": ctx.seed + k, "jitter": 0.0, "payloads": pl, "script": script, "shape": "targeted-two-failures-one-held"})
+    # a payload fails, and a bystander of its flavour answers the cancellation that follows by
+    # raising KeyboardInterrupt: the failure came first, the run ends by raising
+    for ff in ("trio", "asyncio"):
+        for how in ("exc:UserExc", "val:0"):
+            extra.append({"seed": ctx.seed, "jitter": 0.0, "payloads": {"f": {"flavour": ff}, "b1": {"flavour": ff, "on_cancel": "base:KeyboardInterrupt"}, "b2": {"flavour": "threading"}},
+                          "script": [{"op": "adopt", "p": "f"}, {"op": "adopt", "p": "b1"}, {"op": "adopt", "p": "b2"}, {"op": "accept"}, {"op": "wait_running"}, {"op": "wait_start", "p": "f"}, {"op": "wait_start", "p": "b1"}, {"op": "wait_start", "p": "b2"},
+                                     {"op": "end", "p": "f", "how": how}, {"op": "wait_end", "timeout": 4.0}], "shape": "targeted-failure-then-interrupting-bystander"})
     scen.run_family(ctx, sh, names=NAMES, allow=(), extra_scenarios=extra, mc_invariants=["FailStopSafe", "CauseFaithful", "InterruptEndsQuietly", "AtMostOnce", "CleanupBeforeEnd"], mc_properties=["FailStopLive"], per_shape=16 if thorough else 6, depth=40, label="c01")
     ctx.extra["rule"] = "shapes = failing flavour x failure kind (non-None value incl. falsy ones / Exception / BaseException / KeyboardInterrupt) x registration time (queued, adopted from a thread or from a payload of each flavour, service created before or after start) with bystanders of all flavours; per shape TLC-simulated behaviours projected to the controllable actions; distinct non-trivial = distinct (shape, sequence of starts/ends/cancellations/returns observed)"
     ctx.assumptions = [
